@@ -67,6 +67,19 @@ func (u *Unit) lockOp(ev *Ev, muExpr ast.Expr, op string, at *ast.CallExpr) {
 			g := sev.expr(inv.Expr)
 			st.assume(g.T)
 		}
+		if u.c != nil && u.c.Flags["old_at_lock"] && !u.oldRebased {
+			// the operation takes effect inside its critical section: old() in the postconditions refers to the state in
+			// which the lock was acquired (what other threads did before that is not this operation's business)
+			u.oldRebased = true
+			lets := u.entry.lets
+			u.entry = st.clone()
+			for k, v := range lets {
+				if _, ok := u.entry.lets[k]; !ok {
+					u.entry.lets[k] = v
+				}
+			}
+			u.eng.noteMeta(u, "old() in "+u.name+" refers to the state at lock acquisition (linearisation point inside the critical section)")
+		}
 	case "Unlock", "RUnlock":
 		if li != nil && op == "Unlock" {
 			sev := u.specEv(st, at.Pos(), "unlock "+li.TypeName+"."+li.Field)
